@@ -14,6 +14,10 @@ import Driver.Suites.Tier
 import Driver.Suites.Trkwire
 import Driver.Suites.Announcer
 import Driver.Suites.Replies
+import Driver.Suites.Parse
+import Driver.Suites.Paths
+import Driver.Suites.Tar
+import Driver.Suites.Remove
 /-! Table of suites known to the driver.  One line per suite (merge=union friendly). -/
 namespace Driver
 def registry : List Suite := [
@@ -38,5 +42,9 @@ def registry : List Suite := [
   Suites.Trkwire.suite,
   Suites.Announcer.suite,
   Suites.Replies.suite,
+  Suites.Parse.suite,
+  Suites.Paths.suite,
+  Suites.Tar.suite,
+  Suites.Remove.suite,
 ]
 end Driver
